@@ -17,9 +17,41 @@
 // otherwise identical container holding at least one element.
 // Oracle: ConvertFrom returns an error (and does not panic).
 //
+// Struct-member families ("struct-members:compatible" / ":incompatible"):
+// the shapes of struct MEMBERS that reflect.StructOf cannot build, declared
+// statically in zoo_gen.go (written by gen/main.go), enumerated as
+// position of the special member {first, middle, last} x kind of special
+// member x side {destination only, source only, both} x nesting {alone,
+// slice element, map value, map key, member of another struct}:
+//   - a member that is not exported (bool, slice, map, struct, blank "_",
+//     embedded struct of an unexported type, embedded scalar of an
+//     unexported type) and has NO counterpart on the other side;
+//   - an unexported source member v whose counterpart is the exported
+//     destination member V;
+//   - an embedded exported struct E (embedded on both sides, on one side with
+//     an ordinary member called E on the other, or without counterpart);
+//   - exported members whose names differ only in letter case (Ab / AB).
+//
+// What "matched by field name" means is taken from the statement and from
+// the repository's own TestStruct (which expects E to receive e): a
+// destination member is matched with the source member of the same name,
+// letter case ignored. The oracle is the statement's: every EXPORTED
+// destination member that has a counterpart equals it (the other exported
+// members of the struct included - a special member must not disturb its
+// neighbours); the round trip recovers the source's exported matched members;
+// a matched pair of different kind classes is refused; never a panic.
+// Nothing is promised about the content of a member that is not exported
+// (reflection cannot store into it), so that content is never judged, and
+// the universe holds NO pair in which an unexported destination member has a
+// counterpart, and no struct with two members equal up to letter case
+// (inUniverse; a back conversion that would be such a pair is skipped and
+// counted).
+//
 // Narrowing and cross-signedness integer pairs, float64 -> float32 on values
 // that are not float32, unmatched struct members, nil-versus-empty and NaN
 // payloads are NOT judged: the statement does not speak about them.
+//
+//go:generate sh -c "go run ./gen | gofmt > zoo_gen.go"
 package main
 
 import (
@@ -33,6 +65,7 @@ import (
 	"sort"
 	"strings"
 	"time"
+	"unsafe"
 
 	"github.com/lugu/qiloop/type/conversion"
 
@@ -44,8 +77,121 @@ import (
 // ------------------------------------------------------------ types
 
 // Types are sigen trees over the atoms c C w W i I l L f d b s, lists, maps
-// and structs (member names are exported Go identifiers). rtype builds the
+// and structs. A struct called "S" has exported members only and is built by
+// reflect.StructOf; any other struct name designates a statically declared
+// type of the zoo (zoo_gen.go), found by its signature. rtype builds the
 // reflect.Type.
+//
+// In the tree of a static type the member names are the Go names, except
+// that the blank member "_" is spelled "blank" (the signature grammar has no
+// such identifier); an embedded member carries the name of its type, as in Go.
+var statics = map[string]reflect.Type{} // signature -> static type; filled by loadZoo, read-only afterwards
+
+var zooTrees = map[string]*sigen.T{} // shape key -> tree
+
+// treeOf describes a Go type of the zoo as a sigen tree and registers the
+// named struct types it meets.
+func treeOf(t reflect.Type) *sigen.T {
+	switch t.Kind() {
+	case reflect.Bool:
+		return sigen.A('b')
+	case reflect.String:
+		return sigen.A('s')
+	case reflect.Int8:
+		return sigen.A('c')
+	case reflect.Uint8:
+		return sigen.A('C')
+	case reflect.Int16:
+		return sigen.A('w')
+	case reflect.Uint16:
+		return sigen.A('W')
+	case reflect.Int32:
+		return sigen.A('i')
+	case reflect.Uint32:
+		return sigen.A('I')
+	case reflect.Int64:
+		return sigen.A('l')
+	case reflect.Uint64:
+		return sigen.A('L')
+	case reflect.Float32:
+		return sigen.A('f')
+	case reflect.Float64:
+		return sigen.A('d')
+	case reflect.Slice:
+		return sigen.L(treeOf(t.Elem()))
+	case reflect.Map:
+		return sigen.M(treeOf(t.Key()), treeOf(t.Elem()))
+	case reflect.Struct:
+		names := make([]string, t.NumField())
+		elems := make([]*sigen.T, t.NumField())
+		for i := range names {
+			f := t.Field(i)
+			names[i] = f.Name
+			if f.Name == "_" {
+				names[i] = "blank"
+			}
+			elems[i] = treeOf(f.Type)
+		}
+		name := t.Name()
+		if name == "" {
+			name = "S"
+		}
+		tr := sigen.St(name, names, elems...)
+		if name != "S" {
+			if _, ok := statics[tr.Sig()]; !ok {
+				statics[tr.Sig()] = t
+			}
+		}
+		return tr
+	}
+	panic("c20: unsupported zoo type " + t.String())
+}
+
+func loadZoo() {
+	keys := make([]string, 0, len(zoo))
+	for k := range zoo {
+		keys = append(keys, k)
+	}
+	sort.Strings(keys)
+	for _, k := range keys {
+		zooTrees[k] = treeOf(zoo[k])
+	}
+}
+
+// typeString prints a type with the static struct types spelled out.
+func typeString(t reflect.Type) string {
+	switch t.Kind() {
+	case reflect.Slice:
+		return "[]" + typeString(t.Elem())
+	case reflect.Map:
+		return "map[" + typeString(t.Key()) + "]" + typeString(t.Elem())
+	case reflect.Struct:
+		var b strings.Builder
+		if t.Name() != "" {
+			b.WriteString(t.String())
+			b.WriteString("{")
+		} else {
+			b.WriteString("struct {")
+		}
+		for i := 0; i < t.NumField(); i++ {
+			f := t.Field(i)
+			if i > 0 {
+				b.WriteString(";")
+			}
+			b.WriteString(" ")
+			if f.Anonymous {
+				b.WriteString("(embedded) ")
+			} else {
+				b.WriteString(f.Name + " ")
+			}
+			b.WriteString(typeString(f.Type))
+		}
+		b.WriteString(" }")
+		return b.String()
+	}
+	return t.String()
+}
+
 func rtypeNoCache(t *sigen.T) reflect.Type {
 	switch t.Kind {
 	case sigen.Atom:
@@ -80,6 +226,12 @@ func rtypeNoCache(t *sigen.T) reflect.Type {
 	case sigen.Map:
 		return reflect.MapOf(rtypeNoCache(t.Elem[0]), rtypeNoCache(t.Elem[1]))
 	case sigen.Struct:
+		if t.Name != "S" {
+			if rt, ok := statics[t.Sig()]; ok {
+				return rt
+			}
+			panic("c20: no static type for " + t.Sig())
+		}
 		f := make([]reflect.StructField, len(t.Elem))
 		for i, e := range t.Elem {
 			f[i] = reflect.StructField{Name: t.Fields[i], Type: rtypeNoCache(e)}
@@ -189,8 +341,23 @@ func structOnly(ps []pair) []pair {
 // ------------------------------------------------------------ values
 
 type env struct {
-	rt map[string]reflect.Type
+	rt          map[string]reflect.Type
+	back        map[string]bool
+	backSkipped int // compatible cases judged on the forward conversion only
 }
+
+// backOK: the reverse pair belongs to the universe too.
+func (e *env) backOK(p pair) bool {
+	k := p.s.Sig() + ">" + p.d.Sig()
+	ok, seen := e.back[k]
+	if !seen {
+		ok = inUniverse(p.d, p.s)
+		e.back[k] = ok
+	}
+	return ok
+}
+
+func newEnv() *env { return &env{rt: map[string]reflect.Type{}, back: map[string]bool{}} }
 
 func (e *env) rtype(t *sigen.T) reflect.Type {
 	k := t.Sig()
@@ -331,7 +498,7 @@ func (e *env) vals(t *sigen.T, level int) []reflect.Value {
 		build := func(pick func(i int) reflect.Value) reflect.Value {
 			return mk(func(v reflect.Value) {
 				for i := range t.Elem {
-					v.Field(i).Set(pick(i))
+					setMember(v.Field(i), pick(i))
 				}
 			})
 		}
@@ -364,6 +531,21 @@ func (e *env) vals(t *sigen.T, level int) []reflect.Value {
 	return out
 }
 
+// setMember stores val into member f of an addressable struct of the check's
+// own making. Members that are not exported are written through their
+// address (the SOURCE values of the struct-member families carry non-zero
+// content there); a member of a named type (embedded myint, a local E)
+// receives the converted value.
+func setMember(f, val reflect.Value) {
+	if val.Type() != f.Type() {
+		val = val.Convert(f.Type())
+	}
+	if !f.CanSet() {
+		f = reflect.NewAt(f.Type(), unsafe.Pointer(f.UnsafeAddr())).Elem()
+	}
+	f.Set(val)
+}
+
 // keyVals is vals without values that cannot be looked up again or that
 // collide as keys: NaN (anywhere inside), and -0 (equal to 0 as a key).
 func (e *env) keyVals(t *sigen.T, level int) []reflect.Value {
@@ -391,13 +573,139 @@ func hasNaNOrNegZero(v reflect.Value) bool {
 	return false
 }
 
+// ------------------------------------------------------------ struct members
+
+func exported(name string) bool { return name != "" && name[0] >= 'A' && name[0] <= 'Z' }
+
+// counterpart: the member of the source struct s designated by "matched by
+// field name" for member j of the destination struct d - the one of the same
+// name, letter case ignored; -1 if there is none.
+func counterpart(s, d *sigen.T, j int) int {
+	for i, n := range s.Fields {
+		if strings.EqualFold(n, d.Fields[j]) {
+			return i
+		}
+	}
+	return -1
+}
+
+// matched lists the judged member pairs (i of s, j of d): every EXPORTED
+// member of d that has a counterpart in s, in s's order.
+func matched(s, d *sigen.T) [][2]int {
+	var out [][2]int
+	for i := range s.Fields {
+		for j := range d.Fields {
+			if exported(d.Fields[j]) && counterpart(s, d, j) == i {
+				out = append(out, [2]int{i, j})
+			}
+		}
+	}
+	return out
+}
+
+// inUniverse: the pair is one about which the statement promises something
+// everywhere: no struct on either side has two members equal up to letter
+// case, and no member of a destination struct that is not exported has a
+// counterpart in the source (reflection cannot store into it).
+func inUniverse(s, d *sigen.T) bool {
+	if s.Kind != d.Kind {
+		return true
+	}
+	switch s.Kind {
+	case sigen.List:
+		return inUniverse(s.Elem[0], d.Elem[0])
+	case sigen.Map:
+		return inUniverse(s.Elem[0], d.Elem[0]) && inUniverse(s.Elem[1], d.Elem[1])
+	case sigen.Struct:
+		for _, t := range []*sigen.T{s, d} {
+			for a := range t.Fields {
+				for b := a + 1; b < len(t.Fields); b++ {
+					if strings.EqualFold(t.Fields[a], t.Fields[b]) {
+						return false
+					}
+				}
+			}
+		}
+		for j := range d.Fields {
+			i := counterpart(s, d, j)
+			if i < 0 {
+				continue
+			}
+			if !exported(d.Fields[j]) {
+				return false
+			}
+			if !inUniverse(s.Elem[i], d.Elem[j]) {
+				return false
+			}
+		}
+	}
+	return true
+}
+
+// lossless: every member of every source struct has a counterpart, so two
+// different source values never convert to the same destination value (needed
+// of map keys).
+func lossless(s, d *sigen.T) bool {
+	if s.Kind != d.Kind {
+		return true
+	}
+	switch s.Kind {
+	case sigen.List:
+		return lossless(s.Elem[0], d.Elem[0])
+	case sigen.Map:
+		return lossless(s.Elem[0], d.Elem[0]) && lossless(s.Elem[1], d.Elem[1])
+	case sigen.Struct:
+		m := matched(s, d)
+		if len(m) != len(s.Fields) {
+			return false
+		}
+		for _, ij := range m {
+			if !lossless(s.Elem[ij[0]], d.Elem[ij[1]]) {
+				return false
+			}
+		}
+	}
+	return true
+}
+
+// memberClass names the struct pair for the fingerprint.
+func memberClass(s, d *sigen.T) string {
+	embedded := false
+	for _, t := range []*sigen.T{s, d} {
+		for i, n := range t.Fields {
+			if !exported(n) {
+				return "struct-with-unexported-member"
+			}
+			if e := t.Elem[i]; e.Kind == sigen.Struct && e.Name == n {
+				embedded = true
+			}
+		}
+	}
+	if embedded {
+		return "struct-with-embedded-member"
+	}
+	if s.Kind == sigen.Struct && d.Kind == sigen.Struct {
+		for _, ij := range matched(s, d) {
+			if s.Fields[ij[0]] != d.Fields[ij[1]] {
+				return "struct-names-differing-in-case"
+			}
+		}
+	}
+	return "struct"
+}
+
 // ------------------------------------------------------------ walker
 
-// same compares got (of dst type dt) with the source value src (of type st).
-// where == "" if every element, key and member of got equals the source's;
-// otherwise it describes the first difference, and length tells whether that
-// difference is the element count of the outermost container.
-func same(st, dt *sigen.T, src, got reflect.Value) (length bool, where string) {
+// same compares got with the source value src (of type st). Forward
+// (back == false): got is of the destination type dt and every judged member
+// (matched) is compared with its counterpart. Round trip (back == true): got
+// is of type st again and is compared on the members of st that are exported
+// and were matched with a member of dt on the way (the others cannot have
+// travelled). where == "" if every element, key and judged member of got
+// equals the source's; otherwise it describes the first difference, and
+// length tells whether that difference is the element count of the outermost
+// container.
+func same(st, dt *sigen.T, src, got reflect.Value, back bool) (length bool, where string) {
 	switch st.Kind {
 	case sigen.Atom:
 		switch class(st) {
@@ -431,7 +739,7 @@ func same(st, dt *sigen.T, src, got reflect.Value) (length bool, where string) {
 			return true, fmt.Sprintf("slice of %d elements became %d elements", src.Len(), got.Len())
 		}
 		for i := 0; i < src.Len(); i++ {
-			if _, w := same(st.Elem[0], dt.Elem[0], src.Index(i), got.Index(i)); w != "" {
+			if _, w := same(st.Elem[0], dt.Elem[0], src.Index(i), got.Index(i), back); w != "" {
 				return false, fmt.Sprintf("[%d]: %s", i, w)
 			}
 		}
@@ -443,7 +751,7 @@ func same(st, dt *sigen.T, src, got reflect.Value) (length bool, where string) {
 			// the entry of got whose key equals k
 			var found reflect.Value
 			for _, gk := range got.MapKeys() {
-				if _, w := same(st.Elem[0], dt.Elem[0], k, gk); w == "" {
+				if _, w := same(st.Elem[0], dt.Elem[0], k, gk, back); w == "" {
 					found = gk
 					break
 				}
@@ -451,23 +759,24 @@ func same(st, dt *sigen.T, src, got reflect.Value) (length bool, where string) {
 			if !found.IsValid() {
 				return false, fmt.Sprintf("key %v is missing from %v", k, got)
 			}
-			if _, w := same(st.Elem[1], dt.Elem[1], src.MapIndex(k), got.MapIndex(found)); w != "" {
+			if _, w := same(st.Elem[1], dt.Elem[1], src.MapIndex(k), got.MapIndex(found), back); w != "" {
 				return false, fmt.Sprintf("[%v]: %s", k, w)
 			}
 		}
 	case sigen.Struct:
-		for i, name := range st.Fields {
-			j := -1
-			for x, n := range dt.Fields {
-				if n == name {
-					j = x
+		// members without a counterpart and members that are not exported
+		// on the receiving side are not judged
+		for _, ij := range matched(st, dt) {
+			i, j := ij[0], ij[1]
+			g := j
+			if back {
+				if !exported(st.Fields[i]) {
+					continue
 				}
+				g = i
 			}
-			if j < 0 {
-				continue // no counterpart: not judged
-			}
-			if _, w := same(st.Elem[i], dt.Elem[j], src.Field(i), got.Field(j)); w != "" {
-				return false, fmt.Sprintf(".%s: %s", name, w)
+			if _, w := same(st.Elem[i], dt.Elem[j], src.Field(i), got.Field(g), back); w != "" {
+				return false, fmt.Sprintf(".%s: %s", st.Fields[i], w)
 			}
 		}
 	}
@@ -498,8 +807,13 @@ func (e *env) evalCompatible(p pair, x reflect.Value) *failure {
 	if err != nil {
 		return &failure{"compatible-pair-refused", err.Error(), "", "", false}
 	}
-	if l, w := same(p.s, p.d, x, dst.Elem()); w != "" {
+	if l, w := same(p.s, p.d, x, dst.Elem(), false); w != "" {
 		return &failure{"not-preserved", w, "", "", l}
+	}
+	if !e.backOK(p) {
+		// the way back would store into a member that is not exported
+		e.backSkipped++
+		return nil
 	}
 	back := reflect.New(st)
 	o = runner.GuardInline(func() { err = conversion.ConvertFrom(back.Interface(), dst.Elem().Interface()) })
@@ -509,7 +823,7 @@ func (e *env) evalCompatible(p pair, x reflect.Value) *failure {
 	if err != nil {
 		return &failure{"back-conversion-refused", err.Error(), "", "", false}
 	}
-	if l, w := same(p.s, p.s, x, back.Elem()); w != "" {
+	if l, w := same(p.s, p.d, x, back.Elem(), true); w != "" {
 		return &failure{"roundtrip-not-preserved", w, "", "", l}
 	}
 	return nil
@@ -552,11 +866,9 @@ func children(c kase) []kase {
 			out = append(out, kase{pair{s.Elem[0], d.Elem[0]}, k}, kase{pair{s.Elem[1], d.Elem[1]}, c.x.MapIndex(k)})
 		}
 	case sigen.Struct:
-		for i, n := range s.Fields {
-			for j, m := range d.Fields {
-				if n == m {
-					out = append(out, kase{pair{s.Elem[i], d.Elem[j]}, c.x.Field(i)})
-				}
+		for _, ij := range matched(s, d) {
+			if exported(s.Fields[ij[0]]) { // the others cannot be handed to ConvertFrom on their own
+				out = append(out, kase{pair{s.Elem[ij[0]], d.Elem[ij[1]]}, c.x.Field(ij[0])})
 			}
 		}
 	}
@@ -585,6 +897,9 @@ func nodeName(p pair) string {
 		return rtypeNoCache(p.s).String() + "-into-" + rtypeNoCache(p.d).String()
 	}
 	if class(p.s) == class(p.d) {
+		if p.s.Kind == sigen.Struct {
+			return memberClass(p.s, p.d)
+		}
 		return class(p.s)
 	}
 	return class(p.s) + "-into-" + class(p.d)
@@ -597,6 +912,7 @@ type witness struct {
 	src, dst, val string
 	valIndex      int
 	family        string
+	incomp        bool
 	count         int
 	size          int
 }
@@ -612,7 +928,7 @@ type wstate struct {
 }
 
 func newState() *wstate {
-	return &wstate{e: &env{rt: map[string]reflect.Type{}}, distinct: map[string]struct{}{}, wit: map[string]*witness{},
+	return &wstate{e: newEnv(), distinct: map[string]struct{}{}, wit: map[string]*witness{},
 		perFamily: map[string]int{}, samples: map[string][]string{}}
 }
 
@@ -639,7 +955,7 @@ func clip(s string) string {
 	return s
 }
 
-func (st *wstate) record(family string, orig kase, idx int, min kase, f *failure, entry string) {
+func (st *wstate) record(family string, incomp bool, orig kase, idx int, min kase, f *failure, entry string) {
 	detail := nodeName(min.p)
 	if f.clause == "panic" {
 		detail = f.msg + "@" + f.site + "/" + detail
@@ -649,10 +965,10 @@ func (st *wstate) record(family string, orig kase, idx int, min kase, f *failure
 		clause += ":length"
 	}
 	fp := report.FPEscape("ConvertFrom/" + detail + "/" + clause)
-	what := fmt.Sprintf("%s: ConvertFrom(*%v, %v %s): %s: %s", entry, rtypeNoCache(min.p.d), rtypeNoCache(min.p.s), clip(fmt.Sprintf("%#v", min.x.Interface())), f.clause, clip(f.detail))
+	what := fmt.Sprintf("%s: ConvertFrom(*%v, %v %s): %s: %s", entry, typeString(rtypeNoCache(min.p.d)), typeString(rtypeNoCache(min.p.s)), clip(fmt.Sprintf("%#v", min.x.Interface())), f.clause, clip(f.detail))
 	size := orig.p.s.Size()*1000 + len(fmt.Sprintf("%#v", orig.x.Interface()))
 	w, ok := st.wit[fp]
-	cand := &witness{fp, what, orig.p.s.Sig(), orig.p.d.Sig(), fmt.Sprintf("%#v", orig.x.Interface()), idx, family, 1, size}
+	cand := &witness{fp, what, orig.p.s.Sig(), orig.p.d.Sig(), fmt.Sprintf("%#v", orig.x.Interface()), idx, family, incomp, 1, size}
 	if !ok {
 		st.wit[fp] = cand
 		return
@@ -692,7 +1008,7 @@ func (st *wstate) do(j job) {
 		}
 		st.distinct[shapePair(j.p)+" => "+out] = struct{}{}
 		if idx == 0 {
-			st.sample(j.family, fmt.Sprintf("%v -> %v, e.g. %s => %s", st.e.rtype(j.p.s), st.e.rtype(j.p.d), clip(fmt.Sprintf("%#v", x.Interface())), out))
+			st.sample(j.family, fmt.Sprintf("%v -> %v, e.g. %s => %s", typeString(st.e.rtype(j.p.s)), typeString(st.e.rtype(j.p.d)), clip(fmt.Sprintf("%#v", x.Interface())), out))
 		}
 		if f == nil {
 			continue
@@ -709,7 +1025,7 @@ func (st *wstate) do(j job) {
 				f = f2
 			}
 		}
-		st.record(j.family, c, idx, min, f, "family "+j.family)
+		st.record(j.family, j.incomp, c, idx, min, f, "family "+j.family)
 	}
 }
 
@@ -718,27 +1034,33 @@ func (st *wstate) do(j job) {
 func shapePair(p pair) string { return p.s.Sig() + ">" + p.d.Sig() }
 
 // reachesCrossClass: the cross-class node of an incompatible pair is only
-// reached when the containers on the way hold at least one element.
+// reached when the containers on the way hold at least one element; it is
+// reached as soon as ONE element, entry or matched member leads to it.
 func reachesCrossClass(p pair, x reflect.Value) bool {
 	if class(p.s) != class(p.d) {
 		return true
 	}
 	switch p.s.Kind {
 	case sigen.List:
-		return x.Len() > 0 && reachesCrossClass(pair{p.s.Elem[0], p.d.Elem[0]}, x.Index(0))
+		for i := 0; i < x.Len(); i++ {
+			if reachesCrossClass(pair{p.s.Elem[0], p.d.Elem[0]}, x.Index(i)) {
+				return true
+			}
+		}
 	case sigen.Map:
-		if x.Len() == 0 {
-			return false
+		for _, k := range x.MapKeys() {
+			if !sameTree(p.s.Elem[0], p.d.Elem[0]) && reachesCrossClass(pair{p.s.Elem[0], p.d.Elem[0]}, k) {
+				return true
+			}
+			if !sameTree(p.s.Elem[1], p.d.Elem[1]) && reachesCrossClass(pair{p.s.Elem[1], p.d.Elem[1]}, x.MapIndex(k)) {
+				return true
+			}
 		}
-		k := x.MapKeys()[0]
-		if !sameTree(p.s.Elem[0], p.d.Elem[0]) {
-			return reachesCrossClass(pair{p.s.Elem[0], p.d.Elem[0]}, k)
-		}
-		return reachesCrossClass(pair{p.s.Elem[1], p.d.Elem[1]}, x.MapIndex(k))
 	case sigen.Struct:
-		for i := range p.s.Elem {
-			if !sameTree(p.s.Elem[i], p.d.Elem[i]) {
-				return reachesCrossClass(pair{p.s.Elem[i], p.d.Elem[i]}, x.Field(i))
+		for _, ij := range matched(p.s, p.d) {
+			i, j := ij[0], ij[1]
+			if !sameTree(p.s.Elem[i], p.d.Elem[j]) && reachesCrossClass(pair{p.s.Elem[i], p.d.Elem[j]}, x.Field(i)) {
+				return true
 			}
 		}
 	}
@@ -809,8 +1131,252 @@ func incompatiblePairs() []pair {
 	return out
 }
 
+// ------------------------------------------------------------ struct-member families
+
+var zooMissing []string
+
+func zooT(key string) *sigen.T {
+	t, ok := zooTrees[key]
+	if !ok {
+		zooMissing = append(zooMissing, key)
+		return sigen.St("S", nil)
+	}
+	return t
+}
+
+var positions = []string{"first", "middle", "last"}
+
+var specialKinds = []string{"bool", "slice", "map", "struct", "blank", "embstruct", "embscalar"}
+
+// place puts the special member first / in the middle / last among a and b.
+func place[X any](pos string, special, a, b X) []X {
+	switch pos {
+	case "first":
+		return []X{special, a, b}
+	case "middle":
+		return []X{a, special, b}
+	}
+	return []X{a, b, special}
+}
+
+func wideOf(narrow bool) (byte, byte) {
+	if narrow {
+		return 'i', 'f'
+	}
+	return 'l', 'd'
+}
+
+// plain: the struct {A; B} of a payload with exported members only.
+func plainAB(narrow bool, payload string) (a, b *sigen.T) {
+	n, f := wideOf(narrow)
+	switch payload {
+	case "composite":
+		return sigen.L(sigen.A(n)), sigen.M(sigen.A('s'), sigen.A(f))
+	case "nested":
+		return sigen.St("S", []string{"P", "Q"}, sigen.A(n), sigen.A('s')), sigen.A('s')
+	}
+	return sigen.A(n), sigen.A('s')
+}
+
+func plain(narrow bool, payload string) *sigen.T {
+	a, b := plainAB(narrow, payload)
+	return sigen.St("S", []string{"A", "B"}, a, b)
+}
+
+func flavour(narrow bool) string {
+	if narrow {
+		return "narrow"
+	}
+	return "wide"
+}
+
+type specialT struct {
+	t                  *sigen.T
+	pos, kind, payload string
+}
+
+// specials: every zoo struct of a flavour with one special member that has
+// no counterpart on the other side.
+func specials(narrow bool) []specialT {
+	var out []specialT
+	for _, pl := range []string{"scalar", "composite", "nested"} {
+		for _, k := range specialKinds {
+			if pl != "scalar" && k != "bool" {
+				continue
+			}
+			for _, pos := range positions {
+				out = append(out, specialT{zooT("special/" + flavour(narrow) + "/" + pos + "/" + k + "/" + pl), pos, k, pl})
+			}
+		}
+	}
+	return out
+}
+
+// the four kinds of the unexported source member v / exported destination
+// member V, as (source, destination) trees.
+func matchedKinds() map[string]pair {
+	i, l := sigen.A('i'), sigen.A('l')
+	return map[string]pair{
+		"bool":   {sigen.A('b'), sigen.A('b')},
+		"slice":  {sigen.L(i), sigen.L(l)},
+		"map":    {sigen.M(sigen.A('s'), i), sigen.M(sigen.A('s'), l)},
+		"struct": {sigen.St("S", []string{"P"}, i), sigen.St("S", []string{"P"}, l)},
+	}
+}
+
+var matchedKindNames = []string{"bool", "slice", "map", "struct"}
+
+// otherClasses: one representative type of every kind class except that of t.
+func otherClasses(t *sigen.T) []*sigen.T {
+	var out []*sigen.T
+	for _, r := range []*sigen.T{sigen.A('b'), sigen.A('s'), sigen.A('l'), sigen.A('d'), sigen.L(sigen.A('l')),
+		sigen.M(sigen.A('s'), sigen.A('l')), sigen.St("S", []string{"P"}, sigen.A('l'))} {
+		if class(r) != class(t) {
+			out = append(out, r)
+		}
+	}
+	return out
+}
+
+// structMemberBase enumerates the un-nested pairs of the struct-member
+// families and counts them per group.
+func structMemberBase() (compat, incomp []pair, groups map[string]int) {
+	groups = map[string]int{}
+	addC := func(g string, p pair) { compat = append(compat, p); groups[g]++ }
+	addI := func(g string, p pair) { incomp = append(incomp, p); groups[g]++ }
+	s, l, i := sigen.A('s'), sigen.A('l'), sigen.A('i')
+	narrow, wide := specials(true), specials(false)
+
+	// 1. special member without counterpart: destination only, source only, both
+	for _, d := range wide {
+		addC("dst-only", pair{plain(true, d.payload), d.t})
+	}
+	for _, n := range narrow {
+		addC("src-only", pair{n.t, plain(false, n.payload)})
+	}
+	for _, n := range narrow {
+		for _, d := range wide {
+			if n.payload != d.payload || n.kind == "blank" && d.kind == "blank" { // "_" would be its own counterpart
+				continue
+			}
+			addC("both-sides", pair{n.t, d.t})
+		}
+	}
+	// the same with ONE matched exported member of another kind class
+	for _, d := range wide {
+		if d.payload != "scalar" {
+			continue
+		}
+		for _, c := range otherClasses(l) {
+			addI("dst-only/A-crossed", pair{sigen.St("S", []string{"A", "B"}, c, s), d.t})
+		}
+		for _, c := range otherClasses(s) {
+			addI("dst-only/B-crossed", pair{sigen.St("S", []string{"A", "B"}, i, c), d.t})
+		}
+	}
+	for _, n := range narrow {
+		if n.payload != "scalar" {
+			continue
+		}
+		for _, c := range otherClasses(i) {
+			addI("src-only/A-crossed", pair{n.t, sigen.St("S", []string{"A", "B"}, c, s)})
+		}
+		for _, c := range otherClasses(s) {
+			addI("src-only/B-crossed", pair{n.t, sigen.St("S", []string{"A", "B"}, l, c)})
+		}
+	}
+
+	// 2. unexported source member v, exported destination member V
+	mk := matchedKinds()
+	for _, k := range matchedKindNames {
+		for _, ps := range positions {
+			src := zooT("matched/narrow/" + ps + "/" + k)
+			for _, pd := range positions {
+				addC("v-into-V", pair{src, sigen.St("S", place(pd, "V", "A", "B"), place(pd, mk[k].d, l, s)...)})
+			}
+			for _, c := range otherClasses(mk[k].s) {
+				addI("v-into-V/crossed", pair{src, sigen.St("S", place(ps, "V", "A", "B"), place(ps, c, l, s)...)})
+			}
+		}
+	}
+
+	// 3. embedded exported struct E
+	pq := func(n byte) *sigen.T { return sigen.St("S", []string{"P", "Q"}, sigen.A(n), s) }
+	memberE := func(narrow bool, pos string) *sigen.T { // an ordinary member called E
+		n, _ := wideOf(narrow)
+		return sigen.St("S", place(pos, "E", "A", "B"), place(pos, pq(n), sigen.A(n), s)...)
+	}
+	for _, ps := range positions {
+		for _, pd := range positions {
+			addC("E-embedded-both", pair{zooT("embedded/narrow/" + ps), zooT("embedded/wide/" + pd)})
+		}
+		addC("E-member-into-embedded", pair{memberE(true, ps), zooT("embedded/wide/" + ps)})
+		addC("E-embedded-into-member", pair{zooT("embedded/narrow/" + ps), memberE(false, ps)})
+		addC("E-embedded-dst-only", pair{plain(true, "scalar"), zooT("embedded/wide/" + ps)})
+		addC("E-embedded-src-only", pair{zooT("embedded/narrow/" + ps), plain(false, "scalar")})
+		for _, c := range otherClasses(pq('l')) {
+			addI("E-embedded/crossed", pair{zooT("embedded/narrow/" + ps), sigen.St("S", place(ps, "E", "A", "B"), place(ps, c, l, s)...)})
+			addI("E-embedded/crossed", pair{sigen.St("S", place(ps, "E", "A", "B"), place(ps, c, i, s)...), zooT("embedded/wide/" + ps)})
+		}
+		// a member of E of another class
+		addI("E-embedded/P-crossed", pair{zooT("embedded/narrow/" + ps), sigen.St("S", place(ps, "E", "A", "B"), place(ps, sigen.St("S", []string{"P", "Q"}, s, s), l, s)...)})
+		addI("E-embedded/P-crossed", pair{sigen.St("S", place(ps, "E", "A", "B"), place(ps, sigen.St("S", []string{"P", "Q"}, s, s), i, s)...), zooT("embedded/wide/" + ps)})
+	}
+
+	// 4. exported members whose names differ only in letter case
+	for _, names := range [][2]string{{"Ab", "AB"}, {"AB", "Ab"}} {
+		for _, ps := range positions {
+			src := sigen.St("S", place(ps, names[0], "A", "B"), place(ps, i, i, s)...)
+			for _, pd := range positions {
+				addC("case", pair{src, sigen.St("S", place(pd, names[1], "A", "B"), place(pd, l, l, s)...)})
+			}
+			for _, c := range otherClasses(i) {
+				addI("case/crossed", pair{src, sigen.St("S", place(ps, names[1], "A", "B"), place(ps, c, l, s)...)})
+			}
+		}
+	}
+	return
+}
+
+// nest puts a pair at every position of a container: slice element, map
+// value, map key (when both types are comparable and no two source values
+// can collide in the destination), member of a struct (same order / permuted
+// with an extra destination member).
+func nest(p pair, compat bool) []pair {
+	s := sigen.A('s')
+	out := []pair{
+		{sigen.L(p.s), sigen.L(p.d)},
+		{sigen.M(s, p.s), sigen.M(s, p.d)},
+	}
+	if p.s.Comparable() && p.d.Comparable() && (!compat || lossless(p.s, p.d)) {
+		out = append(out, pair{sigen.M(p.s, s), sigen.M(p.d, s)})
+	}
+	out = append(out, pair{sigen.St("S", []string{"A", "B"}, p.s, s), sigen.St("S", []string{"A", "B"}, p.d, s)})
+	if compat {
+		out = append(out, pair{sigen.St("S", []string{"A", "B"}, s, p.s), sigen.St("S", []string{"B", "Extra", "A"}, p.d, s, s)})
+	}
+	return out
+}
+
+// nestAll: the pairs, each of them nested once, and (levels == 2) each of
+// those nested once more.
+func nestAll(base []pair, compat bool, levels int) []pair {
+	out := append([]pair(nil), base...)
+	cur := base
+	for n := 0; n < levels; n++ {
+		var next []pair
+		for _, p := range cur {
+			next = append(next, nest(p, compat)...)
+		}
+		out = append(out, next...)
+		cur = next
+	}
+	return out
+}
+
 func main() {
 	chk := report.New("C20", "exploration")
+	loadZoo()
 	if len(os.Args) >= 3 && os.Args[1] == "--replay" {
 		os.Exit(replay(os.Args[2]))
 	}
@@ -859,6 +1425,60 @@ func main() {
 		"alone and nested as slice element, map value, map key and struct member of an otherwise identical container; only values that reach the cross-class node (non-empty containers)",
 		incompatiblePairs(), true})
 
+	// struct-member families
+	levels := 1
+	if tier == "thorough" {
+		levels = 2
+	}
+	smC, smI, smGroups := structMemberBase()
+	gnames := make([]string, 0, len(smGroups))
+	for g := range smGroups {
+		gnames = append(gnames, g)
+	}
+	sort.Strings(gnames)
+	var gtxt []string
+	for _, g := range gnames {
+		gtxt = append(gtxt, fmt.Sprintf("%s %d", g, smGroups[g]))
+	}
+	nesting := "each pair alone and nested once as slice element, map value (string key), map key (comparable, collision-free types only), member of a struct"
+	if levels == 2 {
+		nesting = "each pair alone, nested once and nested twice (every combination of slice element, map value, map key where comparable and collision-free, member of a struct)"
+	}
+	smText := "struct members that reflect.StructOf cannot build (statically declared types, zoo_gen.go) and member-name shapes: " +
+		"payload members A (int32 -> int64) and B (string) plus ONE special member placed first / middle / last. " +
+		"dst-only, src-only, both-sides: the special member has no counterpart; kinds {unexported bool, []int32, map[string]int32, struct{P int32}, blank _ int32, embedded struct of an unexported type, embedded scalar of an unexported type} " +
+		"(kind bool also with payload A []int32 -> []int64, B map[string]float32 -> map[string]float64 and with payload A struct{P; unexported bool; Q} nested); both-sides = every source shape x every destination shape of the same payload except blank x blank. " +
+		"v-into-V: unexported source member v {bool, []int32, map[string]int32, struct{P int32}} whose counterpart is the exported destination member V (3 x 3 positions; forward conversion only, the way back would store into v). " +
+		"E-*: embedded exported struct E{P; Q} on both sides (3 x 3 positions), embedded on one side with an ordinary member E on the other, embedded without counterpart. " +
+		"case: exported member Ab whose counterpart is AB and conversely (3 x 3 positions). " +
+		"groups (un-nested pairs): " + strings.Join(gtxt, ", ") + "; " + nesting
+	fams = append(fams, famDef{"struct-members:compatible", smText + ". Oracle: every exported destination member with a counterpart (same name, letter case ignored) equals it, the round trip recovers the exported matched members of the source, no error, no panic; the content of members that are not exported is not judged",
+		nestAll(smC, true, levels), false})
+	fams = append(fams, famDef{"struct-members:incompatible", "the same struct shapes in which ONE matched member pair (A, B, v/V, E, a member of E, Ab/AB) is of two different kind classes (the destination or source member ranges over one representative of each of the 6 other classes), " + nesting + "; only values that reach the cross-class node. Oracle: refused with an error, no panic",
+		nestAll(smI, false, levels), true})
+	for _, k := range zooMissing {
+		chk.EngineError("zoo_gen.go has no type for shape %s (re-run go generate in checks/c20)", k)
+	}
+	for _, f := range fams {
+		if !strings.HasPrefix(f.name, "struct-members:") {
+			continue
+		}
+		for _, p := range f.pairs {
+			if !inUniverse(p.s, p.d) {
+				chk.EngineError("family %s: pair %v is outside the judged universe (an unexported destination member has a counterpart, or two members are equal up to letter case)", f.name, p)
+			}
+		}
+	}
+	if len(zooMissing) > 0 {
+		os.Exit(chk.Finish(nil, nil))
+	}
+	// the cheap families first: the deadline, if it ever strikes, strikes the
+	// widest compatible family
+	sort.SliceStable(fams, func(a, b int) bool {
+		wide := func(n string) bool { return strings.HasSuffix(n, "-wide") }
+		return !wide(fams[a].name) && wide(fams[b].name)
+	})
+
 	states := make([]*wstate, workers)
 	for i := range states {
 		states[i] = newState()
@@ -887,6 +1507,7 @@ func main() {
 	for _, st := range states {
 		total.evals += st.evals
 		total.pairs += st.pairs
+		total.e.backSkipped += st.e.backSkipped
 		for k := range st.distinct {
 			total.distinct[k] = struct{}{}
 		}
@@ -960,7 +1581,8 @@ func main() {
 			w.what += fmt.Sprintf(" [order-dependent: reproduced in %d of 20 re-runs]", again)
 		}
 		rep := map[string]interface{}{"family": w.family, "src_type": w.src, "dst_type": w.dst, "value_index": w.valIndex, "value": w.val,
-			"cases_with_this_fingerprint": w.count, "note": "types are written in signature syntax (c C w W i I l L = int8 uint8 int16 uint16 int32 uint32 int64 uint64, f d = float32 float64, b bool, s string)",
+			"cases_with_this_fingerprint": w.count, "note": "types are written in signature syntax (c C w W i I l L = int8 uint8 int16 uint16 int32 uint32 int64 uint64, f d = float32 float64, b bool, s string); a struct whose name is not S is the statically declared Go type of that name in checks/c20/zoo_gen.go (member blank = _)",
+			"src_go_type": typeString(rtypeNoCache(mustTree(w.src))), "dst_go_type": typeString(rtypeNoCache(mustTree(w.dst))),
 			"replay_cmd": "./check.sh C20 quick --replay <this file>"}
 		for i := 0; i < w.count; i++ {
 			chk.Report(fp, fmt.Sprintf("%s [%d cases share this fingerprint]", w.what, w.count), rep)
@@ -976,12 +1598,16 @@ func main() {
 		famCov = append(famCov, map[string]interface{}{"family": r.name, "universe": r.universe, "type_pairs": r.pairs, "evaluations": total.perFamily[r.name], "complete": r.complete, "wall_s": r.wall})
 	}
 	cov := map[string]interface{}{
-		"evaluations":         total.evals,
-		"type_pairs":          total.pairs,
-		"distinct_nontrivial": nontrivial,
+		"evaluations":                          total.evals,
+		"type_pairs":                           total.pairs,
+		"static_struct_types":                  len(statics),
+		"struct_member_groups_unnested_pairs":  smGroups,
+		"compatible_cases_judged_forward_only": total.e.backSkipped,
+		"distinct_nontrivial":                  nontrivial,
 		"rule": "every (src type, dst type) pair of each family x every value of Val(src) (booleans both; integers {byte-asymmetric pattern, min, max, -1, 0, 1, 0x7f}; floats {1.5, a second finite value, max, smallest denormal, 0, -0, Inf, NaN}; " +
 			"strings {\"q\", \"\", multi-byte, 255 bytes, \"a\"}; slices {two elements, nil, empty, every single element, three elements}; maps {two entries, nil, empty, every single entry of the key/value diagonal, two entries crossed}; " +
-			"structs {all distinguished, one member at a time over its whole set, the diagonal}; nested positions capped to the first 6 values at level 1 and 3 deeper). " +
+			"structs {all distinguished, one member at a time over its whole set, the diagonal} - members of a SOURCE struct that are not exported are given their values too (written through their address); nested positions capped to the first 6 values at level 1 and 3 deeper). " +
+			"compatible_cases_judged_forward_only = cases of the v-into-V group, whose way back would store into the unexported member v: only the forward conversion is judged there. " +
 			"distinct_nontrivial = number of distinct (src type, dst type, outcome class) triples in which the types are composite (scalar pairs are counted as trivial)",
 		"distinct_pair_outcomes_including_scalars": len(total.distinct),
 		"samples":                samples,
@@ -993,10 +1619,19 @@ func main() {
 	assumptions := []string{
 		"small-scope hypothesis: recursion mistakes of convertSlice / convertMap / convertStruct show on containers of depth <= 2 (3 in thorough) holding 0..3 elements",
 		"the destination is a fresh zero value; destinations pre-populated with other data are not explored",
-		"not judged (the statement is silent): narrowing and cross-signedness integer pairs, struct members without a counterpart, nil versus empty containers, NaN payload bits, int / uint / pointer / interface kinds",
+		"not judged (the statement is silent): narrowing and cross-signedness integer pairs, struct members without a counterpart, the content of struct members that are not exported, nil versus empty containers, NaN payload bits, int / uint / pointer / interface kinds",
+		"struct members are matched by name with letter case ignored (the repository's TestStruct expects exported E to receive unexported e); not in the universe: an unexported (or blank) destination member that HAS a counterpart in the source, and structs with two members equal up to letter case",
 		"conversion.DecodeFrom / EncodeInto are not exercised (they add the codec, which is C02/C03's business); ConvertFrom is the function they delegate to",
 	}
 	os.Exit(chk.Finish(cov, assumptions))
+}
+
+func mustTree(sig string) *sigen.T {
+	t, ok := sigen.Recognize(sig)
+	if !ok {
+		panic("c20: unparsable signature " + sig)
+	}
+	return t
 }
 
 func findCase(src, dst string, idx int) (kase, bool) {
@@ -1005,7 +1640,7 @@ func findCase(src, dst string, idx int) (kase, bool) {
 	if !ok1 || !ok2 {
 		return kase{}, false
 	}
-	e := &env{rt: map[string]reflect.Type{}}
+	e := newEnv()
 	vals := e.vals(s, 0)
 	if idx < 0 || idx >= len(vals) {
 		return kase{}, false
@@ -1019,14 +1654,13 @@ func reproduces(w *witness) bool {
 		return false
 	}
 	st := newState()
-	st.doOne(w.family, c, w.valIndex)
+	st.doOne(w.family, w.incomp, c, w.valIndex)
 	_, ok = st.wit[w.fp]
 	return ok
 }
 
 // doOne judges a single case (used for confirmation and replay).
-func (st *wstate) doOne(family string, c kase, idx int) {
-	incomp := family == "incompatible"
+func (st *wstate) doOne(family string, incomp bool, c kase, idx int) {
 	if family == "replay" {
 		incomp = !compatible(c.p)
 	}
@@ -1051,7 +1685,7 @@ func (st *wstate) doOne(family string, c kase, idx int) {
 			f = f2
 		}
 	}
-	st.record(family, c, idx, min, f, "family "+family)
+	st.record(family, incomp, c, idx, min, f, "family "+family)
 }
 
 // compatible: same class everywhere (used by replay to choose the oracle).
@@ -1065,11 +1699,9 @@ func compatible(p pair) bool {
 	case sigen.Map:
 		return compatible(pair{p.s.Elem[0], p.d.Elem[0]}) && compatible(pair{p.s.Elem[1], p.d.Elem[1]})
 	case sigen.Struct:
-		for i, n := range p.s.Fields {
-			for j, m := range p.d.Fields {
-				if n == m && !compatible(pair{p.s.Elem[i], p.d.Elem[j]}) {
-					return false
-				}
+		for _, ij := range matched(p.s, p.d) {
+			if !compatible(pair{p.s.Elem[ij[0]], p.d.Elem[ij[1]]}) {
+				return false
 			}
 		}
 	}
@@ -1099,8 +1731,8 @@ func replay(path string) int {
 		return 2
 	}
 	st := newState()
-	st.doOne("replay", c, f.Replay.Index)
-	fmt.Printf("ConvertFrom(*%v, %v %#v)\n", rtypeNoCache(c.p.d), rtypeNoCache(c.p.s), c.x.Interface())
+	st.doOne("replay", false, c, f.Replay.Index)
+	fmt.Printf("ConvertFrom(*%v, %v %#v)\n", typeString(rtypeNoCache(c.p.d)), typeString(rtypeNoCache(c.p.s)), c.x.Interface())
 	if len(st.wit) == 0 {
 		fmt.Println("  no violation")
 		return 0
